@@ -688,5 +688,22 @@ def check(rep, F, tier, replay=None):
         if not ok:
             rep.violation("LF", "cip2_largest_first_by|stop", "cip2_largest_first_by adds an input on a path that does not pass the not-yet-covered edge of the coverage comparison (it no longer stops as soon as the target is covered)", {})
     fresh_rule(rep, F, ids)
+    # FEE-aligned: the marginal fee is a difference of fees as the builder will charge them
+    rep.rule("FEE-aligned", "fee_for_input returns the difference of two fees that both went through the builder's fee request (TxBuilderFee::get_new_fee), like TransactionBuilder::min_fee(): under set_fee / set_min_fee the fee the builder charges does not grow with every input, so a raw size-based difference inflates the target and largest-first reports insufficiency (or keeps adding) although the offered UTxOs suffice")
+    fi_ = F.by_key("TransactionBuilder::fee_for_input")
+    if len(fi_) != 1:
+        rep.lost("TransactionBuilder::fee_for_input not found")
+    else:
+        rep.inst("FEE-aligned")
+        fn_ = F.fns[fi_[0]]
+        org_ = ff.Origins(F, fi_[0])
+        subs_ = [c for c in F.calls(fi_[0]) if (c.to or "").endswith("BigNum::checked_sub")]
+        if not subs_:
+            rep.lost("fee_for_input: final subtraction not found")
+        else:
+            t_ = fn_["bbs"][subs_[-1].bb]["t"]
+            ok_ = all(any(x.startswith("call:") and x.split("@")[0].endswith("TxBuilderFee::get_new_fee") for x in org_.of_operand(a_)) for a_ in t_[3][:2])
+            if not ok_:
+                rep.violation("FEE-aligned", "fee_for_input|raw-difference", "fee_for_input subtracts fees that did not go through fee_request.get_new_fee: with set_min_fee above the size-based fee every selected input still adds ~1.6k-6k lovelace to the target, so LargestFirst returns `UTxO Balance Insufficient` for offered UTxOs that cover outputs + the requested fee", {})
     post_gate_rule(rep, F, ids, adds)
     return rep.finish(EXPLANATION, ["Value::checked_add / BigNum comparisons are exact (C14)", "fee_for_input is the marginal fee of the input (C06 / C15)"], ["csl-facts driver (MIR: resolved callees, dominators, origins slice)"])
